@@ -122,12 +122,10 @@ theorem C13_veitch_dir {n : Nat} (c : VeitchCfg α n) {a a' : Ad (Vector α n)} 
 
 /-- Sivia–Skilling, one update (it has no window; it happens whenever the proposal
     jumped).  With `n` accepted among `nIter = dk + 1` proposal steps: rate above target ⇒
-    the factor is `> 1`, below ⇒ in `(0,1)`, equal ⇒ 1; and either every entry is
-    multiplied by the factor, or — the cap test `factor * max > cap` — nothing changes.
-    **Partial**: the property's "acceptance below the target narrows" needs the cap test to
-    pass; `C13_ss_narrows_below_cap` proves it passes whenever the current scale is within
-    the cap, `C13_ss_cap_blocks_narrowing_witness` shows what happens otherwise. -/
-theorem C13_ss_dir_partial {m : Nat} (c : SSCfg α) {a a' : Ad (SSSt α m)} {acc : Bool}
+    the factor is `> 1`, below ⇒ in `(0,1)`, equal ⇒ 1.  A factor `≤ 1` is always applied to
+    every entry; a widening factor is applied to every entry unless `factor * max > cap`
+    (the documented cap), in which case nothing changes. -/
+theorem C13_ss_dir {m : Nat} (c : SSCfg α) {a a' : Ad (SSSt α m)} {acc : Bool}
     (hxi : 0 < c.xi ∧ c.xi < 1)
     (hup : ∀ n, 1 ≤ n → 1 < c.alphaUp n)
     (hdn : ∀ n, 1 ≤ n → 0 < c.alphaDown n ∧ c.alphaDown n < 1)
@@ -137,8 +135,8 @@ theorem C13_ss_dir_partial {m : Nat} (c : SSCfg α) {a a' : Ad (SSSt α m)} {acc
     (hI : nIter = (a.clock.dkUpdate + 1).toNat) (hf : f = ssAlpha c n nIter) :
     a'.num.nAcc = n ∧
     (c.xi < (n : α) / (nIter : α) → 1 < f) ∧
-    ((n : α) / (nIter : α) < c.xi → 0 < f ∧ f < 1) ∧
-    ((n : α) / (nIter : α) = c.xi → f = 1) ∧
+    ((n : α) / (nIter : α) < c.xi → (0 < f ∧ f < 1) ∧ ∀ i : Fin m, a'.num.vals[i] = a.num.vals[i] * f) ∧
+    ((n : α) / (nIter : α) = c.xi → f = 1 ∧ a'.num.vals = a.num.vals) ∧
     (ssAllowed c f a.num.vals = true → ∀ i : Fin m, a'.num.vals[i] = a.num.vals[i] * f) ∧
     (ssAllowed c f a.num.vals = false → a'.num.vals = a.num.vals) := by
   obtain ⟨_, hcase⟩ := Ad.update_eq_some h
@@ -151,7 +149,11 @@ theorem C13_ss_dir_partial {m : Nat} (c : SSCfg α) {a a' : Ad (SSSt α m)} {acc
   rw [← hn'] at hn
   have hnI : 1 ≤ nIter := by rw [hI]; omega
   have hnIpos : (0 : α) < (nIter : α) := by exact_mod_cast hnI
-  refine ⟨hn, ?_, ?_, ?_, ?_, ?_⟩
+  have happ : ssAllowed c f a.num.vals = true → ∀ i : Fin m, a'.num.vals[i] = a.num.vals[i] * f := by
+    intro hal i
+    rw [hv, hal]
+    simp
+  refine ⟨hn, ?_, ?_, ?_, happ, ?_⟩
   · intro hr
     have hn1 : 1 ≤ n := by
       by_contra h0
@@ -166,100 +168,72 @@ theorem C13_ss_dir_partial {m : Nat} (c : SSCfg α) {a a' : Ad (SSSt α m)} {acc
       have : (n : α) / (nIter : α) < 1 := lt_trans hr hxi.2
       rwa [div_lt_one hnIpos] at this
     have hlt' : n < nIter := by exact_mod_cast hlt
-    rw [hf, ssAlpha, ssBranch_down hr]
-    exact hdn (nIter - n) (by omega)
+    have hf01 : 0 < f ∧ f < 1 := by
+      rw [hf, ssAlpha, ssBranch_down hr]
+      exact hdn (nIter - n) (by omega)
+    exact ⟨hf01, happ (ssAllowed_of_le_one c _ hf01.2.le)⟩
   · intro hr
-    rw [hf, ssAlpha, hr]
-    simp [ssBranch]
-  · intro hal i
-    rw [hv, hal]
-    simp
+    have hf1 : f = 1 := by
+      rw [hf, ssAlpha, hr]
+      simp [ssBranch]
+    refine ⟨hf1, ?_⟩
+    apply Vector.ext
+    intro i hi
+    have := happ (ssAllowed_of_le_one c _ (le_of_eq hf1)) ⟨i, hi⟩
+    simp only [Fin.getElem_fin] at this
+    rw [this, hf1, mul_one]
   · intro hal
     rw [hv, hal]
     simp
 
-/-- Sivia–Skilling: while the scale is within the cap (or there is no cap), an update at a
-    rate below the target strictly narrows every entry. -/
-theorem C13_ss_narrows_below_cap {m : Nat} (c : SSCfg α) {a a' : Ad (SSSt α m)} {acc : Bool}
+/-- Sivia–Skilling: an update at a rate below the target strictly narrows every (positive)
+    entry — always; the cap only limits widening. -/
+theorem C13_ss_narrows {m : Nat} (c : SSCfg α) {a a' : Ad (SSSt α m)} {acc : Bool}
     (hxi : 0 < c.xi ∧ c.xi < 1)
     (hup : ∀ n, 1 ≤ n → 1 < c.alphaUp n)
     (hdn : ∀ n, 1 ≤ n → 0 < c.alphaDown n ∧ c.alphaDown n < 1)
     (hss : a.clock.cfg.window = .ss) (hj : a.clock.callJump = true)
     (hpos : ∀ i : Fin m, 0 < a.num.vals[i])
-    (hcap : ∀ cap, c.cap = some cap → ∀ i : Fin m, a.num.vals[i] ≤ cap)
     (h : ssUpdate c a acc = some a')
     (hr : ((a.num.nAcc + (if acc then 1 else 0) : Nat) : α) /
         (((a.clock.dkUpdate + 1).toNat : Nat) : α) < c.xi) :
-    ∀ i : Fin m, a'.num.vals[i] < a.num.vals[i] := by
-  obtain ⟨_, _, hdown, _, hallow, _⟩ := C13_ss_dir_partial c hxi hup hdn hss hj h rfl rfl rfl
-  obtain ⟨hf0, hf1⟩ := hdown hr
+    ∀ i : Fin m, 0 < a'.num.vals[i] ∧ a'.num.vals[i] < a.num.vals[i] := by
+  obtain ⟨_, _, hdown, _, _, _⟩ := C13_ss_dir c hxi hup hdn hss hj h rfl rfl rfl
+  obtain ⟨⟨hf0, hf1⟩, hv⟩ := hdown hr
+  intro i
+  rw [hv i]
+  constructor
+  · exact mul_pos (hpos i) hf0
+  · nlinarith [hpos i]
+
+/-- Sivia–Skilling: an update at a rate above the target strictly widens every (positive)
+    entry as long as the widened scale stays within the cap (always, without a cap). -/
+theorem C13_ss_widens_within_cap {m : Nat} (c : SSCfg α) {a a' : Ad (SSSt α m)} {acc : Bool}
+    (hxi : 0 < c.xi ∧ c.xi < 1)
+    (hup : ∀ n, 1 ≤ n → 1 < c.alphaUp n)
+    (hdn : ∀ n, 1 ≤ n → 0 < c.alphaDown n ∧ c.alphaDown n < 1)
+    (hss : a.clock.cfg.window = .ss) (hj : a.clock.callJump = true)
+    (hpos : ∀ i : Fin m, 0 < a.num.vals[i])
+    (h : ssUpdate c a acc = some a')
+    (hr : c.xi < ((a.num.nAcc + (if acc then 1 else 0) : Nat) : α) /
+        (((a.clock.dkUpdate + 1).toNat : Nat) : α))
+    (hroom : ∀ cap mx, c.cap = some cap → vmax a.num.vals = some mx →
+      ssAlpha c (a.num.nAcc + (if acc then 1 else 0)) (a.clock.dkUpdate + 1).toNat * mx ≤ cap) :
+    ∀ i : Fin m, a.num.vals[i] < a'.num.vals[i] := by
+  obtain ⟨_, hupf, _, _, hallow, _⟩ := C13_ss_dir c hxi hup hdn hss hj h rfl rfl rfl
+  have hf1 := hupf hr
   have hal : ssAllowed c (ssAlpha c (a.num.nAcc + (if acc then 1 else 0)) (a.clock.dkUpdate + 1).toNat)
       a.num.vals = true := by
     unfold ssAllowed
     cases hc : c.cap with
-    | none => rfl
+    | none => simp
     | some cap =>
       cases hmx : vmax a.num.vals with
-      | none => rfl
-      | some mx =>
-        obtain ⟨i, hi⟩ := vmax_mem hmx
-        have h1 : mx ≤ cap := by rw [← hi]; exact hcap cap hc i
-        have h2 : 0 < mx := by rw [← hi]; exact hpos i
-        simp only [decide_eq_true_eq]
-        nlinarith
+      | none => simp
+      | some mx => simp [hroom cap mx hc hmx]
   intro i
   rw [hallow hal i]
   nlinarith [hpos i]
-
-/-- What the Sivia–Skilling cap test does to a scale that starts above the cap: if even the
-    narrowing factor leaves `factor * max` above the cap, an always-rejected history never
-    changes the scale.  (The exact factors are `≥ e^-½ ≈ 0.61`: `SSAdaptiveBoundedNormal`
-    with the default unit variance on a box narrower than `0.61/1.49 ≈ 0.41` never adapts.) -/
-theorem C13_ss_cap_blocks_narrowing_witness {m : Nat} (c : SSCfg α) (cap : α) (hc : c.cap = some cap)
-    (hxi : 0 < c.xi) :
-    ∀ (hs : List Bool) (a a' : Ad (SSSt α m)), (∀ x ∈ hs, x = false) →
-      a.num.nAcc = 0 → (∀ k mx, vmax a.num.vals = some mx → cap < c.alphaDown k * mx) →
-      Ad.run (fun (acc : Bool) dk _ s => ssBody c acc dk s) id a hs = some a' →
-      a'.num.vals = a.num.vals := by
-  intro hs
-  induction hs with
-  | nil => intro a a' _ _ _ hr; simp [Ad.run] at hr; subst hr; rfl
-  | cons x xs ih =>
-    intro a a' hall h0 hblk hr
-    have hx : x = false := hall x (List.mem_cons_self ..)
-    subst hx
-    simp only [Ad.run, Option.bind_eq_some_iff] at hr
-    obtain ⟨b, hb, hr⟩ := hr
-    obtain ⟨_, hcase⟩ := Ad.update_eq_some hb
-    have hbnum : b.num.nAcc = 0 ∧ b.num.vals = a.num.vals := by
-      rcases hcase with ⟨_, hbody⟩ | ⟨_, hnum⟩
-      · obtain ⟨hpos, hn, hv⟩ := ssBody_eq_some hbody
-        simp only [id, Bool.false_eq_true, if_false, Nat.add_zero] at hn
-        rw [hn, h0] at hv
-        refine ⟨by rw [hn, h0], ?_⟩
-        rw [hv]
-        have hnI : 1 ≤ (a.clock.dkUpdate + 1).toNat := by omega
-        have hrate : ((0 : Nat) : α) / (((a.clock.dkUpdate + 1).toNat : Nat) : α) < c.xi := by
-          simpa using hxi
-        by_cases hal : ssAllowed c (ssAlpha c 0 (a.clock.dkUpdate + 1).toNat) a.num.vals = true
-        · unfold ssAllowed at hal
-          rw [hc] at hal
-          cases hmx : vmax a.num.vals with
-          | none =>
-            apply Vector.ext
-            intro i hi
-            have := vmax_none hmx
-            omega
-          | some mx =>
-            simp only [hmx, decide_eq_true_eq] at hal
-            rw [ssAlpha, ssBranch_down hrate] at hal
-            exact absurd hal (not_le.mpr (hblk _ mx hmx))
-        · simp [hal]
-      · exact ⟨by rw [hnum, h0], by rw [hnum]⟩
-    rw [← hbnum.2]
-    exact ih b a' (fun y hy => hall y (List.mem_cons_of_mem _ hy)) hbnum.1
-      (by rw [hbnum.2]; exact hblk) hr
-
 
 /-- Andrieu–Thoms (normal, bounded, angular; global or componentwise scaling): an update
     moves `log λ` of every coordinate strictly up when the acceptance ratio that drives it
@@ -419,6 +393,54 @@ theorem C13_veitch_sustained_reject {n : Nat} (c : VeitchCfg α n) (hxi : 0 < c.
       · exact (((hdir.1 hu).2 (by simpa using hx)) i).1
       · rw [hdir.2.1 (by simpa using hu)]
     exact le_trans h1 h2
+
+/-- Sivia–Skilling, every step rejected since construction / reset (`n_accepted = 0`, so the
+    rate is 0 < target at every update), any history length and jump interval, with or
+    without a cap, from any positive scale — also one above the cap: no entry ever increases
+    and every entry is strictly smaller once an update was absorbed. -/
+theorem C13_ss_sustained_reject {m : Nat} (c : SSCfg α) (hxi : 0 < c.xi ∧ c.xi < 1)
+    (hup : ∀ n, 1 ≤ n → 1 < c.alphaUp n)
+    (hdn : ∀ n, 1 ≤ n → 0 < c.alphaDown n ∧ c.alphaDown n < 1)
+    (hs : List Bool) (hall : ∀ x ∈ hs, x = false) (a a' : Ad (SSSt α m))
+    (hss : a.clock.cfg.window = .ss) (h0 : a.num.nAcc = 0) (hpos : ∀ i : Fin m, 0 < a.num.vals[i])
+    (hr : Ad.run (fun (acc : Bool) dk _ s => ssBody c acc dk s) id a hs = some a') (i : Fin m) :
+    a'.num.vals[i] ≤ a.num.vals[i] ∧
+    (a.clock.events.length < a'.clock.events.length → a'.num.vals[i] < a.num.vals[i]) := by
+  have hrate : ∀ (b : Ad (SSSt α m)), b.num.nAcc = 0 →
+      ((b.num.nAcc + (if false = true then 1 else 0) : Nat) : α) /
+        (((b.clock.dkUpdate + 1).toNat : Nat) : α) < c.xi := by
+    intro b hb
+    rw [hb]; simpa using hxi.1
+  have := Ad.run_mono (β := αᵒᵈ) (fun (acc : Bool) dk _ s => ssBody c acc dk s) id
+    (fun s : SSSt α m => OrderDual.toDual s.vals[i]) (fun x => x = false)
+    (fun b => b.clock.cfg = a.clock.cfg ∧ b.num.nAcc = 0 ∧ ∀ j : Fin m, 0 < b.num.vals[j])
+    (by
+      intro b x b' ⟨hcfg, hb0, hbpos⟩ hx hu
+      subst hx
+      obtain ⟨hc, hcase⟩ := Ad.update_eq_some hu
+      refine ⟨by rw [hc, update_cfg]; exact hcfg, ?_⟩
+      rcases hcase with ⟨hupd, hbody⟩ | ⟨_, hnum⟩
+      · have hj : b.clock.callJump = true := by
+          cases hcj : b.clock.callJump <;> simp [hcj] at hupd ⊢
+        have hw' : b.clock.cfg.window = .ss := by rw [hcfg]; exact hss
+        obtain ⟨_, hn, _⟩ := ssBody_eq_some hbody
+        refine ⟨by rw [hn, hb0]; simp, fun j => ?_⟩
+        exact (C13_ss_narrows c hxi hup hdn hw' hj hbpos (show ssUpdate c b false = some b' from hu)
+          (hrate b hb0) j).1
+      · rw [hnum]; exact ⟨hb0, hbpos⟩)
+    (by
+      intro b x s' ⟨hcfg, hb0, hbpos⟩ hx hu hbody
+      subst hx
+      have hj : b.clock.callJump = true := by
+        cases hcj : b.clock.callJump <;> simp [hcj] at hu ⊢
+      have hw' : b.clock.cfg.window = .ss := by rw [hcfg]; exact hss
+      have hupd : ssUpdate c b false = some { clock := b.clock.update false (arTag false) [], num := s' } := by
+        unfold ssUpdate Ad.update
+        simp [hu, hbody]
+      rw [OrderDual.toDual_lt_toDual]
+      exact (C13_ss_narrows c hxi hup hdn hw' hj hbpos hupd (hrate b hb0) i).2)
+    hs a a' ⟨rfl, h0, hpos⟩ hall hr
+  exact ⟨OrderDual.toDual_le_toDual.mp this.1, fun hl => OrderDual.toDual_lt_toDual.mp (this.2.2 hl)⟩
 
 /-- Andrieu–Thoms, every driving acceptance ratio above the target: `log λ` of every
     coordinate never decreases and is strictly larger once an update was absorbed. -/
